@@ -3,9 +3,12 @@ C10 — no request or response can make validation of a valid document panic.
 
 Full-strength goal (DESIGN §4):
     valid_doc_no_panic : DocValid d → ∀ traffic, outcome d traffic ≠ panic ∧ outcome d traffic ≠ diverge
-Three deviations are left on the current tree, so what is proved is `valid_doc_no_panic_partial` under the
-decidable exclusions `ExclOp` (document) and `UncopyableReq/Resp`, `UnencodableReq/Resp` (traffic):
+Four deviations are left on the current tree, so what is proved is `valid_doc_no_panic_partial` under the
+decidable exclusions `ExclOp` (document) and `HugeIndexReq`, `UncopyableReq/Resp`, `UnencodableReq/Resp` (traffic):
   F-C10-1  UnguardedRecursion    (DESIGN §7 #6, open)  `A: {allOf:[{$ref:A}]}` → unbounded recursion
+  F-C10-8  HugeArrayIndex        (open)  `GET /a?p[b][2000000000]=1` against a deepObject parameter with an array property:
+           `sliceMapToSlice` builds every element up to the largest index (2.7 GB and 5 s for index 2·10⁷; never ends
+           for 9223372036854775807)
   F-C10-7  UncopyableYamlKey     (open)  a YAML body `~: 1` (or `.nan: 1`) against a schema with oneOf/anyOf: `deepcopy.Copy`
            of the decoded value panics inside `ValidateRequest` / `ValidateResponse` (reflect on a zero Value)
   F-C10-6  UnencodableErrorValue (open)  the error returned for `GET /a?q=NaN&q=1` (array of numbers, maxItems 1) or for a
@@ -21,6 +24,8 @@ plus the translator obligation `all_sites_discharged` over the regenerated panic
 -/
 import KinModel.PanicSites
 import KinModel.Gen.PanicSites
+import KinModel.MapRanges
+import KinModel.Gen.MapRanges
 import KinModel.NoPanic.Server
 import KinModel.NoPanic.Router
 import KinModel.NoPanic.Recursion
@@ -31,9 +36,6 @@ open KinModel.NoPanic KinModel.NoPanic.Traffic KinModel.NoPanic.Router
 
 /-! ## T: the regenerated panic-site table -/
 
-/-- the extractor could read every code shape it met -/
-theorem all_sites_recognised : ∀ r ∈ Gen.panicSites, PanicSites.recognised r = true := by decide
-
 /-- every potentially panicking operation reachable from the traffic entry points is either guarded
     syntactically or discharged by a named lemma / library contract / open finding with the same
     (file, function, kind, count). A new unguarded site, or a guard that disappears, breaks this. -/
@@ -42,10 +44,41 @@ theorem all_sites_discharged_table : PanicSites.allDischarged PanicSites.expecta
 theorem all_sites_discharged : ∀ r ∈ Gen.panicSites, r.discharged PanicSites.expectations = true :=
   PanicSites.discharged_of_all all_sites_discharged_table
 
+/-- the extractor could read every code shape it met (an `unrecognised` row is never discharged) -/
+theorem all_sites_recognised : ∀ r ∈ Gen.panicSites, PanicSites.recognised r = true :=
+  fun r hr => PanicSites.recognised_of_discharged (all_sites_discharged r hr)
+
+/-- no stale expectation: every hand-written entry still discharges a row of the regenerated table -/
+theorem all_expectations_used : PanicSites.allUsed PanicSites.expectations Gen.panicSites = true := by decide
+
 /-- exactly one row is discharged as an open finding: the two `panic(err)` of `SchemaError.Error` (F-C10-6; the
     rows of F-C10-3 and F-C10-4 are guarded in the code since their repair) -/
 theorem open_finding_rows :
     PanicSites.openFindingRows PanicSites.expectations Gen.panicSites = [("SchemaError.Error", "F-C10-6")] := by decide
+
+/-! ## T2: the regenerated map-range table (map iteration order) -/
+
+/-- every `range` over a map in the functions reachable from the traffic entry points is sorted first, of an
+    order-free shape, or explained by hand with the same (file, function, count). A new unsorted loop breaks this. -/
+theorem all_map_ranges_discharged_table :
+    MapRanges.allDischarged MapRanges.expectations Gen.mapRanges = true := by decide
+
+theorem all_map_ranges_discharged : ∀ r ∈ Gen.mapRanges, r.discharged MapRanges.expectations = true :=
+  MapRanges.discharged_of_all all_map_ranges_discharged_table
+
+theorem all_map_ranges_recognised : ∀ r ∈ Gen.mapRanges, MapRanges.recognised r = true :=
+  fun r hr => MapRanges.recognised_of_discharged (all_map_ranges_discharged r hr)
+
+theorem all_map_range_expectations_used : MapRanges.allUsed MapRanges.expectations Gen.mapRanges = true := by decide
+
+/-- no loop's order decides between a panic and a normal return (DESIGN #35 is repaired) -/
+theorem no_order_dependent_panic :
+    MapRanges.openFindingRows MapRanges.expectations Gen.mapRanges = [] := by decide
+
+/-- the loops whose order is visible in the verdict, the route or the error text (not in panics): exactly these -/
+theorem order_visible_rows :
+    MapRanges.panicFreeRows MapRanges.expectations Gen.mapRanges =
+      ["permutePart", "NewRouter", "UrlencodedBodyDecoder", "buildResObj", "makeObject", "urlValuesDecoder.DecodeObject"] := by decide
 
 /-! ## Server.MatchRawURL -/
 
@@ -193,7 +226,7 @@ example : ∃ n b, ∀ m, n ≤ m → Recursion.visit
 theorem validateParameter_no_panic_partial (p : ParamM) (b : Bits) (hwf : p.wf = true)
     (hu1 : ∀ s, p.schema = some s → s.unguarded = false)
     (hu2 : ∀ m s, p.jsonMedia = some m → m.schema = some s → s.unguarded = false)
-    (hcf : b.copyFails = false) :
+    (hcf : b.copyFails = false) (hhi : (p.isQuery && b.hugeIndex) = false) :
     (validateParameter p b).bad = false := by
   unfold ParamM.wf at hwf
   simp only [Bool.and_eq_true, Bool.not_eq_true'] at hwf
@@ -237,7 +270,9 @@ theorem validateParameter_no_panic_partial (p : ParamM) (b : Bits) (hwf : p.wf =
         simp only
         have hres : s.resolved = true := by simpa [hsc, SchemaM.wf] using hs
         have hung := hu1 s hsc
-        simp only [hres, Bool.not_true, Bool.false_eq_true, if_false]
+        have hhi' : ¬ (p.isQuery = true ∧ b.hugeIndex = true) := by
+          intro hq; simp [hq.1, hq.2] at hhi
+        simp only [hres, Bool.not_true, Bool.false_eq_true, if_false, hhi']
         split
         · rfl
         · exact afterDecode_not_bad _ _ _ (by intro x hx'; cases hx'; exact ⟨hres, hung⟩) hcf
@@ -301,7 +336,9 @@ def ExclOp (op : OpM) : Bool := UnguardedRecursion op
 /-- `ValidateRequest` on a valid document outside the exclusion: for ALL traffic (all decoder and
     validator answers) the outcome is success or an error, never a panic or unbounded recursion -/
 theorem validateRequest_no_panic_partial (op : OpM) (t : ReqTraffic) (hv : DocValid op = true)
-    (hx : ExclOp op = false) (hcp : UncopyableReq op t = false) : (validateRequest op t).bad = false := by
+    (hx : ExclOp op = false) (hcp : UncopyableReq op t = false) (hhi : HugeIndexReq op t = false) :
+    (validateRequest op t).bad = false := by
+  unfold HugeIndexReq at hhi
   unfold UncopyableReq at hcp
   simp only [Bool.or_eq_false_iff] at hcp
   obtain ⟨hcp1, hcp2⟩ := hcp
@@ -326,6 +363,7 @@ theorem validateRequest_no_panic_partial (op : OpM) (t : ReqTraffic) (hv : DocVa
     · intro s hs; simpa [hs] using hun.1
     · intro m s hm hs; simpa [hm, MediaM.unguarded, hs] using hun.2
     · exact Bool.eq_false_iff.mpr ((List.any_eq_false.mp hcp1) ip hip)
+    · exact Bool.eq_false_iff.mpr ((List.any_eq_false.mp hhi) ip hip)
   · cases hbody : op.body with
     | none => simp [hbody] at ho
     | some rb =>
@@ -440,9 +478,10 @@ def ExclC10 (s : Scenario) : Bool := ExclOp s.op
     the `ValidationErrorEncoder` write) can be produced — unless the traffic made a decoder produce a value that
     cannot be JSON-encoded (F-C10-6) -/
 theorem requestErrorText_no_panic_partial (op : OpM) (t : ReqTraffic) (details : Bool) (hv : DocValid op = true)
-    (hx : ExclOp op = false) (hcp : UncopyableReq op t = false) (hj : UnencodableReq op t = false) :
+    (hx : ExclOp op = false) (hcp : UncopyableReq op t = false) (hhi : HugeIndexReq op t = false)
+    (hj : UnencodableReq op t = false) :
     (errorText details (validateRequest op t)).bad = false :=
-  errorText_of_printable _ _ (validateRequest_no_panic_partial op t hv hx hcp) (validateRequest_printable op t hj)
+  errorText_of_printable _ _ (validateRequest_no_panic_partial op t hv hx hcp hhi) (validateRequest_printable op t hj)
 
 theorem responseErrorText_no_panic_partial (op : OpM) (t : RespTraffic) (details : Bool) (hv : DocValid op = true)
     (hx : ExclOp op = false) (hcp : UncopyableResp op t = false) (hj : UnencodableResp op t = false) :
@@ -456,6 +495,7 @@ theorem errorText_without_details (o : Out) (h : o.bad = false) : (errorText fal
   | err p => cases p <;> rfl
   | panic s => simp [Out.bad] at h
   | diverge => simp [Out.bad] at h
+  | exhaust => simp [Out.bad] at h
 
 /-- C10 on the model, partial: a valid document without an unguarded reference cycle (F-C10-1) cannot be made to
     panic or recurse without bound by any traffic through the legacy router, the gorilla router's port branch,
@@ -465,10 +505,10 @@ theorem valid_doc_no_panic_partial (s : Scenario) (hv : DocValid s.op = true) (h
     (herr : ∀ e ∈ s.errs, ErrWF e = true) :
     (∀ site, legacyFindRoute s.servers s.paths s.method s.rawURL s.urlPath ≠ .panic site) ∧
     (∀ u ∈ s.servers, gorillaPortBranch u ≠ .panic) ∧
-    (UncopyableReq s.op s.req = false → (validateRequest s.op s.req).bad = false) ∧
+    (UncopyableReq s.op s.req = false → HugeIndexReq s.op s.req = false → (validateRequest s.op s.req).bad = false) ∧
     (UncopyableResp s.op s.resp = false → (validateResponse s.op s.resp).bad = false) ∧
     (∀ e ∈ s.errs, (convertErrors e).bad = false) ∧
-    (UncopyableReq s.op s.req = false → UnencodableReq s.op s.req = false →
+    (UncopyableReq s.op s.req = false → HugeIndexReq s.op s.req = false → UnencodableReq s.op s.req = false →
       (errorText s.details (validateRequest s.op s.req)).bad = false) ∧
     (UncopyableResp s.op s.resp = false → UnencodableResp s.op s.resp = false →
       (errorText s.details (validateResponse s.op s.resp)).bad = false) :=
@@ -480,7 +520,7 @@ theorem valid_doc_no_panic_partial (s : Scenario) (hv : DocValid s.op = true) (h
 /-! ## witnesses inside the exclusion, non-vacuity outside -/
 
 def sOK : SchemaM := ⟨true, false⟩
-def bitsAny : Bits := ⟨true, false, false, false, false, true, false⟩
+def bitsAny : Bits := ⟨true, false, false, false, false, true, false, false⟩
 
 /-- regression of F-C10-4: content parameter whose media type has no schema, parameter present in the request:
     decoded, not validated -/
@@ -498,15 +538,23 @@ theorem unguarded_body_witness :
     reference cycles, `ValidateRequest` returns an error normally, and producing its text panics -/
 theorem unencodable_value_witness :
     let op : OpM := ⟨[⟨false, true, false, false, some sOK, false, 0, none⟩], none, []⟩
-    let t : ReqTraffic := ⟨false, fun _ => ⟨true, true, false, false, false, false, false⟩, ⟨true, none, bitsAny⟩⟩
+    let t : ReqTraffic := ⟨false, fun _ => ⟨true, true, false, false, false, false, false, false⟩, ⟨true, none, bitsAny⟩⟩
     DocValid op = true ∧ ExclOp op = false ∧ UncopyableReq op t = false ∧ UnencodableReq op t = true ∧
     validateRequest op t = .err false ∧ (errorText true (validateRequest op t)).bad = true := by decide
+
+/-- witness F-C10-8: `GET /a?p[b][2000000000]=1`, p a deepObject parameter with an array property b — valid
+    document, and `ValidateRequest` builds two thousand million elements for a 27-byte query -/
+theorem huge_index_witness :
+    let op : OpM := ⟨[⟨false, true, false, false, some sOK, false, 0, none⟩], none, []⟩
+    let t : ReqTraffic := ⟨false, fun _ => ⟨true, false, false, false, false, true, true, false⟩, ⟨true, none, bitsAny⟩⟩
+    DocValid op = true ∧ ExclOp op = false ∧ UncopyableReq op t = false ∧ HugeIndexReq op t = true ∧
+    validateRequest op t = .exhaust := by decide
 
 /-- witness F-C10-7: `POST /a`, `Content-Type: application/yaml`, body `~: 1` against `{oneOf: [{type: object}]}` —
     valid document without reference cycles, `ValidateRequest` itself panics (in `deepcopy.Copy`) -/
 theorem uncopyable_key_witness :
     let op : OpM := ⟨[], some ⟨false, false, [⟨some sOK⟩]⟩, []⟩
-    let t : ReqTraffic := ⟨false, fun _ => bitsAny, ⟨false, some 0, ⟨true, false, false, false, false, true, true⟩⟩⟩
+    let t : ReqTraffic := ⟨false, fun _ => bitsAny, ⟨false, some 0, ⟨true, false, false, false, false, true, false, true⟩⟩⟩
     DocValid op = true ∧ ExclOp op = false ∧ UncopyableReq op t = true ∧ (validateRequest op t).bad = true := by decide
 
 /-- what the document gate is needed for: an unresolved reference panics -/
@@ -525,8 +573,9 @@ def opEx : OpM :=
 example : DocValid opEx = true ∧ ExclOp opEx = false := by decide
 example : validateRequest opEx ⟨false, fun _ => bitsAny, ⟨false, some 0, bitsAny⟩⟩ = .err true := by decide
 example : UnencodableReq opEx ⟨true, fun _ => bitsAny, ⟨false, some 0, bitsAny⟩⟩ = false := by decide
-example : validateResponse opEx ⟨false, some 0, fun _ => ⟨true, false, false, false, true, true, false⟩, false,
-    ⟨false, some 0, ⟨true, false, false, false, true, true, false⟩⟩⟩ = .ok := by decide
+example : validateResponse opEx ⟨false, some 0, fun _ => ⟨true, false, false, false, true, true, false, false⟩, false,
+    ⟨false, some 0, ⟨true, false, false, false, true, true, false, false⟩⟩⟩ = .ok := by decide
+example : HugeIndexReq opEx ⟨true, fun _ => bitsAny, ⟨false, some 0, bitsAny⟩⟩ = false := by decide
 example : UncopyableReq opEx ⟨true, fun _ => bitsAny, ⟨false, some 0, bitsAny⟩⟩ = false := by decide
 example : ErrWF ⟨true, .schema [⟨true, false⟩, ⟨false, true⟩]⟩ = true := by decide
 theorem convert_enum_without_schema_panics : (convertErrors ⟨true, .schema [⟨true, true⟩]⟩).bad = true := by decide
